@@ -9,6 +9,8 @@ Decided clauses (all 8 combinations of {history, autocomplete, help}, macros on)
     Full − ∪Owned(f∈D) and its changed functions are exactly ∪Changed(f∈D) (features do not interact); the items a
     facility owns are anchored (history::History::*, Cli::navigate_history; Cli::process_autocomplete,
     Editor::autocompletion; Cli::process_help, HelpRequest::from_command).
+ G  generated code: the derive output for the declaration corpus is identical across feature sets except for the impls of
+    the disabled facility itself (parsers and processors never depend on a feature).
  W  behaviour: the event words of `Cli::process_byte` (every path and outcome, rules/session.py) of each combination are
     *identical* to the full configuration's for every key the disabled facilities do not own; with history off Up and
     Down have the empty word and Enter's words equal the full ones with the history push erased; with autocomplete off
@@ -113,6 +115,71 @@ def check_manifest(res):
             msg="embedded-cli-macros/Cargo.toml: feature `%s` is %s, expected an independent empty feature" % (k, fm.get(k))))
 
 
+def check_generated_independence(ctx, res, cfgs):
+    """G: derive-generated code of the declaration corpus (fixtures/decls), per feature set: the generated `FromRaw::parse`,
+    processors and their closures are identical in all 8 combinations (no facility owns them); generated `Help` impls are
+    identical in the 4 combinations with `help`, generated `Autocomplete` impls in the 4 with `autocomplete`."""
+    names = list(cfgs)
+
+    def ext(n):
+        try:
+            F.extract('decls-' + n, ctx.key)
+            return n, None
+        except F.ExtractError as e:
+            return n, str(e)
+    with ThreadPoolExecutor(max_workers=8) as ex:
+        results = list(ex.map(ext, names))
+    for n, err in results:
+        res.oblige("G|build|%s" % n, err is None, violation=None if err is None else dict(
+            rule='C16.build', key="C16|build|decls-%s" % n, msg="the declaration corpus does not type-check with features {%s}: %s" % (
+                ",".join(cfgs[n]), (err or '')[-600:])))
+    if any(e for _, e in results):
+        return
+    from .common import strip_crate
+    tables = {}
+    for n in names:
+        crate = ctx.crates('decls-' + n)['decls']
+        t = {}
+        for f in crate.fns:
+            if not (f.expn and 'Derive' in f.expn and ('Command' in f.expn)):
+                continue
+            grp = 'core'
+            tr = strip_crate(f.impl_trait) or ''
+            pth = f.npath
+            if tr == 'service::Help' or '<impl service::Help' in pth:
+                grp = 'help'
+            elif tr == 'service::Autocomplete' or '<impl service::Autocomplete' in pth:
+                grp = 'autocomplete'
+            h = hashlib.sha1(json.dumps(strip_spans([f.body, f.promoted]), sort_keys=True).encode()).hexdigest()[:16]
+            t[f.npath] = (grp, h)
+        tables[n] = t
+    ref = tables[FULL]
+    ncmp = 0
+    for n in names:
+        for np_, (grp, h) in ref.items():
+            if grp == 'help' and 'help' not in cfgs[n]:
+                continue
+            if grp == 'autocomplete' and 'autocomplete' not in cfgs[n]:
+                continue
+            got = tables[n].get(np_)
+            good = got is not None and got[1] == h
+            ncmp += 1
+            if not good:
+                res.oblige("G|%s|%s" % (n, np_), False, violation=dict(
+                    rule='C16.generated', key="C16|generated|%s" % np_,
+                    msg="derive-generated %s %s in configuration %s (features {%s}) than with all features: code generated for a "
+                        "facility that is still enabled depends on a disabled one" % (
+                            np_, 'is missing' if got is None else 'differs', n, ",".join(cfgs[n]))))
+            else:
+                res.obligations += 1
+                res.evaluations += 1
+                res.discharged += 1
+    res.distinct.add("G|generated-independence")
+    res.extra['generated_functions_compared'] = ncmp
+    if ncmp < 200:
+        raise KeyError("only %d generated functions compared across configurations" % ncmp)
+
+
 def run(ctx, res):
     res.explanation = __doc__
     res.rule_text = ("B: one per configuration; M: one per manifest feature; X: one per (configuration, set equation); "
@@ -191,6 +258,7 @@ def run(ctx, res):
                            rule='C16.interaction', key="C16|interaction|%s|%s" % (n, what),
                            msg="configuration %s (disabled: %s): functions %s are %s beyond / short of what the single features account for: "
                                "unexpected %s, missing %s" % (n, D, what, what, sorted(got - exp)[:10], sorted(exp - got)[:10])))
+    check_generated_independence(ctx, res, cfgs)
     # W: behaviour
     words = {}
     apiw = {}
